@@ -1,1 +1,2 @@
+pub mod kb;
 pub mod lru;
